@@ -83,6 +83,12 @@ CHECKS.update({
          "alias tags on leaves only; fields with both an alias tag and a format-specific tag are not generated; file-family values are restricted to ones all four formats carry (value handling is C13's subject)",
          "DESIGN.md section 4 C14"),
 })
+CHECKS.update({
+ 'C10': ("runtime leaf-correspondence monitor: real Transformer chains (every shipped source/decoder chain plus random sub-chains) on seeded types; translated fields are filled by NAME with forward-converted typed values and the reverse translation is compared leaf by leaf with the layer written; empty-value reversal",
+         "Seeded pointerified config types are translated by the env, flag, pflag, JSON/Cue, YAML (with/without anonymous-flatten), TOML and ez file chains and by random chains of the nine manglers respecting their documented preconditions; a random subset of translated fields (addressed by name: flattened concatenation, alias copy, hoisted embedded fields) receives the forward conversion of unique typed values; ReverseTranslate must return exactly the original type with each filled leaf holding its value and every other leaf unset, and the all-unset translated value must reverse to the all-unset original.",
+         "forward conversions (duration->ParsingDuration, set->slice, value->*string text) are harness code; under string-casting chains only string-castable leaves are filled; alias primary and copy never both filled",
+         "DESIGN.md section 4 C10"),
+})
 NOT_YET = "check not yet built in this session (planned in DESIGN.md section 4; the technique applies)"
 
 def main():
